@@ -397,7 +397,15 @@ pub fn case(ctx: &mut Ctx, idx: u64) {
         let modes = maps::reachable_modes(&map);
         let modes: Vec<GameMode> = if small { vec![*rng.pick(&modes)] } else { modes };
         for mode in modes {
-            let spec = sets::gen_setspec(&mut rng, mode, SetDomain::Game).without_passed();
+            // the lifetime checks only compare a calculator with itself, so the settings may be anything the API accepts,
+            // including a Difficulty that still carries passed_objects (its meaning for a gradual calculator is irrelevant here)
+            let spec = sets::gen_setspec(&mut rng, mode, SetDomain::Game);
+            let spec = if rng.chance(0.4) {
+                ctx.count("lifetimes:difficulty-carries-passed_objects");
+                spec.with_passed(rng.below(map.hit_objects.len() as u64 + 2) as u32)
+            } else {
+                spec.without_passed()
+            };
             let d = spec.to_difficulty(mode);
             let mut r2 = rng.fork();
             let r = guard(|| bracket("gradual_lifetimes", || gradual_lifetimes(&mut r2, &map, mode, &d)));
